@@ -82,6 +82,8 @@ Section AField.
     al_ratio : forall a b, a_demands_ratio A a b = a /' b;
     al_nema : forall m m2 mx, a_nema A m m2 mx = (mx -' m) /' m2;
     al_minutes : forall i p, a_minutes A i p = p *' i;
+    al_energy_cost : forall t d, a_energy_cost A t d = d *' (t /' oofZ O 60);
+    al_demand_charge : forall dc m, a_demand_charge A dc m = dc *' m;
     al_abs_default : a_abs_applied A false = true
   }.
   Hypothesis AL : akern_laws.
@@ -175,6 +177,21 @@ Section AField.
     rewrite map_nth0.
     - rewrite (al_power AL), (H2 t Ht). reflexivity.
     - rewrite (al_power AL), Odiv. ring.
+  Qed.
+
+  (* ---------------- energy_cost / demand_charge ---------------- *)
+  Theorem costs_F (tr : traj) prices dc :
+    Forall (fun row => length row = t_width tr) (t_rates tr) ->
+    energy_cost O A tr prices = energy_cost_spec O tr prices
+    /\ demand_charge O A tr dc = demand_charge_spec O tr dc.
+  Proof.
+    intro H. destruct (aggregate_F tr H) as (_ & L2 & Hn).
+    assert (Hp : aggregate_power O A tr = map (aggregate_power_spec O tr) (periods tr)).
+    { unfold periods. apply (list_eq_map_seq_F z0); [exact L2|]. intros t Ht. now destruct (Hn t Ht). }
+    unfold energy_cost, energy_cost_spec, demand_charge, demand_charge_spec. rewrite Hp, (al_energy_cost AL).
+    split; [reflexivity|].
+    destruct (vec_max O (map (aggregate_power_spec O tr) (periods tr))); cbn [option_map]; [|reflexivity].
+    now rewrite (al_demand_charge AL).
   Qed.
 
   (* ---------------- the aggregates do not depend on the order (labelling) of the stations ---------------- *)
